@@ -73,6 +73,11 @@ def other_interpreters(ctx: Ctx) -> dict:
             continue
         r = subprocess.run([exe, "-B", "-c", _SCAN], capture_output=True, text=True, timeout=600, env=env)
         if r.returncode != 0:
+            # (a failure that comes out of the package itself is the package's matter; libraries of the venv that do not
+            # import under this interpreter make it unusable, which is reported and not judged)
+            if "lsprotocol" in r.stderr and "site-packages" not in r.stderr.split("lsprotocol")[0][-200:]:
+                ctx.finding(("package-does-not-run", "lsprotocol", "python" + ".".join(ver.split(".")[:2])), f"Python {ver}: {(r.stderr.strip().splitlines() or ['?'])[-1][:200]}",
+                            {"interpreter": exe})
             stats["unusable"].append([ver, (r.stderr.strip().splitlines() or ["?"])[-1][:160]])
             continue
         res = json.loads(r.stdout.strip().splitlines()[-1])
@@ -84,6 +89,9 @@ def other_interpreters(ctx: Ctx) -> dict:
         for cname, aname, shown in res["unresolved"]:
             ctx.finding(("unresolved-forward-ref", f"{cname}.{aname}", mm), f"Python {ver}: after the first get_converter() the field type is still {shown}",
                         {"locus": f"{cname}.{aname}", "interpreter": exe})
+    if not stats["interpreters"] and stats["unusable"]:
+        from ..runner import HarnessError
+        raise HarnessError(f"no other interpreter could run the package: {stats['unusable'][:3]}")
     return stats
 
 
